@@ -21,6 +21,8 @@ for sid in sorted(os.listdir(os.path.join(VERIF, "seeded"))):
     shutil.rmtree(src, ignore_errors=True)
     os.makedirs(src)
     shutil.copytree("/repo/src", os.path.join(src, "src"))
+    for f in ("Cargo.toml", "Cargo.lock"):
+        shutil.copy(os.path.join("/repo", f), os.path.join(src, f))
     r = subprocess.run(["patch", "-s", "-p1", "-i", os.path.join(d, "patch.diff")], cwd=src, capture_output=True, text=True)
     if r.returncode != 0:
         rows.append((sid, prop, "patch does not apply", {}))
@@ -35,7 +37,8 @@ for sid in sorted(os.listdir(os.path.join(VERIF, "seeded"))):
         out = cp.stdout.strip().splitlines()
         if cp.returncode == 1:
             obl = [l.split()[1].rstrip(":") for l in out if l.startswith("FAILED-OBLIGATION")]
-            verdicts[p] = "VIOLATION " + ", ".join(obl[:3])
+            nb = sum(1 for l in out if l.startswith("FAILING-INPUT"))
+            verdicts[p] = "VIOLATION " + ", ".join(obl[:3]) + (f" [bounded stand-in: failing inputs]" if nb else "")
         elif cp.returncode == 0:
             verdicts[p] = "pass (missed)"
         else:
